@@ -192,6 +192,60 @@ func runC18(r *vk.Run) {
 	})
 	r.Require("maporder_runs_compared", 500)
 
+	// containers as real deployments label them: Compose AND Swarm labels on one container, OCI image
+	// annotations, 25+ Docker labels (so a sample carries well over 30 labels once a parser stage has
+	// run); ungated, every query repeated
+	richQueries := []string{
+		`{container=~".+"} | drop msg`, `{container=~".+"} | logfmt | drop msg`, `sum by (container) (count_over_time({container=~".+"}[10s]))`,
+		`count_over_time({container=~".+"} | logfmt | drop msg [10s])`, `sum by (container, level) (count_over_time({container=~".+"} | logfmt [10s]))`,
+		`sum by (service, project) (count_over_time({container=~".+"}[10s]))`, `{service=~".*"} | drop msg`, `sum without (msg, f1, f2) (count_over_time({container=~".+"} | logfmt [10s]))`,
+		`max by (com_docker_compose_service, com_docker_swarm_service_name) (bytes_over_time({container=~".+"}[10s]))`,
+	}
+	r.Phase("rich", r.N(2, 30), func(c *vk.Case) {
+		rng := c.Rng
+		var inv []CSpec
+		for i := 0; i < 3; i++ {
+			cs := CSpec{ID: fmt.Sprintf("id%d", i), Name: fmt.Sprintf("/c%d", i), Image: "img", State: "running", Labels: map[string]string{
+				"com.docker.compose.service": fmt.Sprintf("web%d", i), "com.docker.swarm.service.name": fmt.Sprintf("stack_web%d", i),
+				"com.docker.compose.project": "shop", "com.docker.stack.namespace": "stack", "com.docker.compose.version": "2.24.0",
+				"com.docker.compose.container-number": fmt.Sprint(i + 1), "com.docker.compose.oneoff": "False", "com.docker.compose.config-hash": "abc123",
+				"com.docker.swarm.node.id": "n1", "com.docker.swarm.task.id": fmt.Sprintf("t%d", i), "com.docker.swarm.task.name": fmt.Sprintf("stack_web.%d", i),
+				"org.opencontainers.image.title": "web", "org.opencontainers.image.version": "1.2.3", "org.opencontainers.image.revision": "deadbeef",
+				"org.opencontainers.image.source": "https://example.invalid/src", "org.opencontainers.image.licenses": "MIT", "org.opencontainers.image.vendor": "v",
+				"org.opencontainers.image.created": "2024-01-01T00:00:00Z", "org.opencontainers.image.url": "u", "org.opencontainers.image.documentation": "d",
+				"org.opencontainers.image.description": "desc", "org.opencontainers.image.authors": "a", "org.opencontainers.image.ref.name": "r",
+				"maintainer": "m", "tier": vk.Pick(rng, []string{"front", "back"}),
+			}}
+			for j := 0; j < 4; j++ {
+				cs.Frames = append(cs.Frames, Frame{Type: 1, TS: c14T0 + int64(j)*2e9 + int64(i)*1e6 + 1e9,
+					Body: fmt.Sprintf("level=%s f1=%d f2=x f3=y f4=z f5=w", vk.Pick(rng, []string{"info", "warn"}), j)})
+			}
+			inv = append(inv, cs)
+		}
+		for _, q := range richQueries {
+			first := ""
+			for rep := 0; rep < c.R.N(25, 60); rep++ {
+				fd := newFakeDocker(inv)
+				data, err := evalRaw(fd, q, EvalP{Start: c14T0, End: c14T0 + 10e9, Step: 5 * time.Second, Limit: -1})
+				c.Eval(1)
+				if err != nil {
+					c.Fail("", fmt.Sprintf("query %s failed: %v", q, err), map[string]any{"query": q, "inventory": inv})
+					return
+				}
+				res, _ := convertResult(data)
+				canon := res.Canonical()
+				if first == "" {
+					first = canon + "\x00"
+				} else if first != canon+"\x00" {
+					c.Fail("", fmt.Sprintf("query %s over the same richly labelled containers gave different results in two runs (repetition %d)", q, rep), map[string]any{"query": q, "inventory": inv, "this_run": canon, "first_run": first})
+					return
+				}
+				c.Count("rich_runs_compared", 1)
+			}
+		}
+	})
+	r.Require("rich_runs_compared", 300)
+
 	// order-sensitive float arithmetic and NaN ties: running-mean aggregations over whole-number counts
 	// (1,2,7 is enough for avg to differ by an ulp between operand orders) and topk/bottomk over groups
 	// with more NaN samples than k, where no comparison can break the tie
